@@ -259,7 +259,9 @@ func (o Op) Code(k int, m *Model) string {
 		w(`%s`, ob("~sp", TArr(TPath), false, "*"+st+".storagePaths"))
 	case "st.foreach":
 		w(`var %s: [String] = []`, n("acc"))
+		w(`World.mark("ITER-BEGIN")`)
 		w(`%s.forEachStored(fun (p: StoragePath, t: Type): Bool { %s.append(p.toString().concat(":").concat(t.identifier)); return true })`, st, n("acc"))
+		w(`World.mark("ITER-END")`)
 		w(`%s`, ob("~fe", TArr(TString), false, n("acc")))
 	case "st.loadR": // load a resource with type argument T, observe, put it back at Q (or destroy if Q == "")
 		w(`if let %s <- %s.load<%s>(from: %s) {`, n("r"), st, o.T.Ann(), sp(o.P))
